@@ -161,8 +161,10 @@ def _sub_ranges(prog):
     for a, b in zip(bounds, bounds[1:]):
         name = label_at[a]
         end = b
-        for k in range(a + 1, b):
-            # (also when that label block is dead code: it is not a member of the subroutine either)
+        last_member = max(ref.sub_members[name]) if ref.sub_members[name] else a
+        for k in range(last_member + 1, b):
+            # the body ends at the first label block AFTER its last member that is not part of it (main's trailing
+            # `FIN:` block, or dead code behind the body); dead code in the middle of a body stays inside it
             if prog[k][0] == "label" and (k not in ref.sub_members[name]) and prog[k - 1][0] in ("retsub", "return", "err", "b"):
                 end = k
                 break
